@@ -2,6 +2,12 @@ module verif/sim
 
 go 1.23
 
-require github.com/paulmach/orb v0.0.0
+require (
+	github.com/gogo/protobuf v1.3.2
+	github.com/paulmach/orb v0.0.0
+	go.mongodb.org/mongo-driver v1.11.4
+)
+
+require github.com/paulmach/protoscan v0.2.1 // indirect
 
 replace github.com/paulmach/orb => /repo
